@@ -12,21 +12,38 @@ MANIFEST_TEXT = ("Lean 4 theorems over an arbitrary commutative ring with a conj
                  "densevector.hh / dotproduct.hh / transpose.hh on every run, and are proved equal to their definitions incl. result shape "
                  "and frame; diagonal, 1x1-scalar-view, transposed-view and view-of-view representations give the results of the full "
                  "matrix with the same entries (kernels, products, +=,-=,*=,/=,==), two representations with equal entries give equal "
-                 "kernel results, conversions FieldMatrix/DynamicMatrix <- any representation keep the entries. The model is run against "
+                 "kernel results, conversions FieldMatrix/DynamicMatrix <- any representation keep the entries. Object histories: a store "
+                 "model in which every object is a register pointing to the storage it reads and writes (scalar variables behind "
+                 "asVector/asMatrix views, the matrix behind transposedView); what the three assignment operators of ScalarVectorView / "
+                 "ScalarMatrixView do with that pointer (copy the entry vs. re-point the handle) and whether transposedView holds a "
+                 "reference or a copy is re-read from scalarvectorview.hh / scalarmatrixview.hh / transpose.hh; proved for all histories: "
+                 "every executed operation (=, =k, +=, -=, axpy, *=, leftmultiply, rightmultiply, the 11 kernels, also through a "
+                 "transposed view) is exactly one write of the algebraic result into the storage of its target object, every other "
+                 "storage cell (every operand taken as input only) is unchanged, every object keeps referring to the storage it was "
+                 "created for, a transposed view shows the current content of its matrix. The model is run against "
                  "FieldMatrix/DynamicMatrix/DiagonalMatrix/ScalarMatrixView/transposed views (also nested, also as left factor) and "
                  "FieldVector/DynamicVector (mixed as kernel arguments) over int, double, complex<double> and GF(32003) on >= 40k cases "
-                 "per run, with naive loops as independent oracle and operands compared before/after every call.")
+                 "per run, with naive loops as independent oracle and operands compared before/after every call; ~10% of the cases are "
+                 "object histories of 1..8 operations on 2..5 objects (scalar views of mutable / const scalars, FieldVector, DynamicVector, "
+                 "FieldMatrix 1x1 / 2x2, DynamicMatrix, DiagonalMatrix, transposed views made before the first operation) where after "
+                 "every operation the storage behind every object (the scalar variable itself, not the view) is compared with the "
+                 "definition and with what the object shows.")
 MANIFEST_NOTE = ("Trusted: Lean kernel (+propext/Classical.choice/Quot.sound), tr_c01.py, fidelity of the hand-written parts of the "
                  "model (1x1 / size-1 specialisations, FieldMatrix/FieldVector operators with a scalar, FieldMatrix +/-, row-wise "
-                 "delegation of the DenseMatrix compound assignments, DiagonalMatrix*DiagonalMatrix, conversions; differential run only), "
+                 "delegation of the DenseMatrix compound assignments, DiagonalMatrix*DiagonalMatrix, conversions, `= scalar`, which "
+                 "overload an assignment between two object kinds selects; differential run only), "
                  "harness + driver parsing. Static FieldMatrix shapes: all of 1..4 x 1..4 for complex<double>, subsets covering all 16 "
                  "shapes for int/double/GF; views of views, a view as left factor and mixed vector kinds only for the non-square shapes "
                  "with rows+cols >= 5 (compile time). Harness compiled -O0 with ASan (heap; stack variables not instrumented) + "
                  "_GLIBCXX_ASSERTIONS (exact index checks of std::array / std::vector) + UBSan(bounds, signed overflow, shifts, "
                  "division, ...; without null/alignment/vptr/pointer-overflow/object-size). Floating-point rounding is outside the "
                  "property (exact fields only); complex division only with divisors for which libgcc's Smith division is exact. "
-                 "Aliasing between the written object and an argument (A.rightmultiply(A), A.umv(x,x)) is outside the model.")
-TECHNIQUE = "Lean 4 proof over loop-nest interpreters + translator for kernel / product / elementwise-loop signature tables + differential correspondence with naive-loop oracle"
+                 "Aliasing between the written object and an argument (A.rightmultiply(A), A.umv(x,x)) is outside the model; in an "
+                 "object history two objects never share storage unless the code under test makes them (which the check reports). "
+                 "Object histories use FieldVector<K,1..3>, DynamicVector 1..4, FieldMatrix 1x1 and 2x2, DynamicMatrix up to 3x3, "
+                 "DiagonalMatrix<K,2>; transposed views of a 2x2 FieldMatrix, DynamicMatrix, DiagonalMatrix<K,2>, ScalarMatrixView.")
+TECHNIQUE = ("Lean 4 proof over loop-nest interpreters and a store-with-handles model + translator for kernel / product / elementwise-loop "
+             "signature tables and view-assignment tables + differential correspondence with naive-loop oracle (single operations and object histories)")
 TRANSLATORS = [tr_c01.translate]
 HARNESS = dict(
     sources=["cxx_c01.cc"],
@@ -43,14 +60,19 @@ RULE = ("cases: random field K in {int, double, complex<double>, GF(32003)} x op
         "multTransposedMatrix, multAssign(Transposed)/mult/multTransposed; transposed/transpose/asDense; conversions FieldMatrix/"
         "DynamicMatrix <- any representation and FieldVector <-> DynamicVector; matrix +=,-=,+,-,*=,/=,*s,s*,/s,axpy,unary -,==,!=; "
         "FieldMatrix<K,1,1> +-scalar, scalar+-, +=s, -=s, conversion; vector +=,-=,+,-,unary -,+=s,-=s,*=,/=,*s,s*,/s,axpy,==,!=,"
-        "operator*,dot, free dot/dotT, FieldVector<K,1>/scalar mixes incl. ==,!=,<,<=,>,>= and conversion) x representation(s) in "
+        "operator*,dot, free dot/dotT, FieldVector<K,1>/scalar mixes incl. ==,!=,<,<=,>,>= and conversion; 10% object histories "
+        "`seq`: 2..5 objects of one size family (1 / 2 / dynamic r x c up to 3) out of asVector(s), asVector(const s), FieldVector, "
+        "DynamicVector, asMatrix(s), asMatrix(const s), FieldMatrix, DynamicMatrix, DiagonalMatrix, transposedView of an earlier object, "
+        "then 1..8 operations drawn uniformly among the operand tuples the operation is executed for: object=object (4/16), =k, +=, -=, "
+        "axpy, *=k, leftmultiply, rightmultiply, a kernel (4/16; through a view half of the time when one exists)) x representation(s) in "
         "{FieldMatrix r x c (1..4), DynamicMatrix (1..6), DiagonalMatrix, ScalarMatrixView, transposed view / transposed copy / view "
         "of a view of these; FieldVector, DynamicVector, plain scalar} x small-integer entries biased to 0, +-1 (GF: 0, 1, p-1, p-2, "
         "small, random); distinct = distinct op lines; non-trivial = the oracle compared a computed result with the definition "
         "(divisions outside the exact domain are trivial)")
 ASSUMPTIONS = [
     "the signature tables of the kernels, of the product / transposition loop nests, of multAssign(Transposed) and of the elementwise DenseVector loops and dot products are regenerated from the source by tools/translators/tr_c01.py (a statement outside its grammar makes the obligation fail); the 1x1 / size-1 specialisations, the FieldMatrix/FieldVector operators with a scalar, FieldMatrix +/-, the row-wise delegation of the DenseMatrix compound assignments, DiagonalMatrix*DiagonalMatrix and the conversions are hand-written in lean/DuneVerif/Model/C01.lean and Driver/C01.lean and tied to the code by this differential run",
-    "an argument never aliases the object an operation writes to (value semantics of the model; the code asserts this for mv/mtv only)",
+    "an argument never aliases the object an operation writes to (value semantics of the model; the code asserts this for mv/mtv only); in object histories distinct objects have distinct storage and a kernel's x and y are distinct objects",
+    "object histories: what the assignment operators of ScalarVectorView / ScalarMatrixView do with their pointer and what transposedView holds is regenerated from the source (Gen.svv_*, Gen.smv_*, Gen.tvHolds); which overload `object = object` selects for a pair of kinds (same view type / view of the other constness / conversion to the scalar / the owning class's entry copy), `= scalar` and the availability table of the operations are hand-written in Model/C01/Store.lean and tied to the code by the differential run",
     "entries are small integers, so int does not overflow and double / complex<double> arithmetic is exact; floating-point rounding is not part of the property",
     "division is exercised only where it is exact (divisible operands; complex divisors for which libgcc's Smith algorithm is exact; non-zero divisors in GF(32003))",
     "static FieldMatrix shapes per field type: complex<double> all of 1..4 x 1..4; int {11,12,21,22,23,32,33,34,43,44}; double {11,13,31,22,24,42,33}; GF {11,12,21,14,41,22,33,44}",
